@@ -1,5 +1,5 @@
 #![no_main]
-//! c01::C01: the fuzz bytes are the random stream of the property's proptest strategy (pass-through RNG).
+//! c01::C01: the fuzz bytes select (as a seed) a case of the property's proptest strategy; see engine::fuzzing::run_passthrough.
 use engine::fuzzing::Fuzzer;
 use engine::props::c01::C01;
 use libfuzzer_sys::fuzz_target;
